@@ -32,13 +32,18 @@ For fractional items, use LP (greedy by value/weight ratio is optimal).
 For multiple constraints, use MILP or CP-SAT.
 """
 
-import sys
 from collections.abc import Sequence
+from fractions import Fraction
 
 from solvor.types import Result, Status
 from solvor.utils import check_non_negative, check_sequence_lengths
 
 __all__ = ["solve_knapsack"]
+
+
+def _exact(x) -> Fraction:
+    """The number the caller wrote: ints and Fractions as they are, a float through its shortest repr."""
+    return Fraction(x) if isinstance(x, (int, Fraction)) else Fraction(str(x))
 
 
 def solve_knapsack(
@@ -66,8 +71,16 @@ def solve_knapsack(
     # Convert to integer capacity for DP (scale if needed)
     int_capacity, scale = _to_int_capacity(capacity, weights)
 
-    # Scale weights
-    int_weights = [max(1, int(w * scale)) if w > 0 else 0 for w in weights]
+    # The DP is exact when the scaled data are whole numbers (up to float noise: 2.01 * 1000 is 2009.9999999999998);
+    # they are then rounded to those numbers. Otherwise the weights are cut down to the grid: the answer is still
+    # checked against the real weights below, but it is not claimed to be optimal.
+    scaled = [w * scale for w in weights] + [capacity * scale]
+    exact = all(abs(x - round(x)) <= 1e-9 * max(1.0, abs(x)) for x in scaled)
+    if exact:
+        int_capacity = round(capacity * scale)
+        int_weights = [round(w * scale) for w in weights]
+    else:
+        int_weights = [max(1, int(w * scale)) if w > 0 else 0 for w in weights]
 
     # DP table: dp[w] = max value achievable with capacity w
     dp = [0.0] * (int_capacity + 1)
@@ -100,15 +113,14 @@ def solve_knapsack(
     # Compute actual objective with original values
     objective = sum(values[i] for i in selected)
 
-    # Verify weight constraint (in case of scaling errors)
-    total_weight = sum(weights[i] for i in selected)
-    # allow only the float error of that sum (none for integral data): a fixed 1e-9 accepted overweight picks
-    allowance = 0.0 if scale == 1.0 else len(selected) * sys.float_info.epsilon * capacity
-    if total_weight > capacity + allowance:
+    # Verify the weight constraint on the caller's own numbers, exactly (0.1 is one tenth): no float residue, so no
+    # allowance - a selection that is over the capacity by however little goes to the fallback
+    total_weight = sum(_exact(weights[i]) for i in selected)
+    if total_weight > _exact(capacity):
         # Scaling caused infeasibility, fall back to greedy
         return _greedy_fallback(values, weights, capacity, minimize)
 
-    return Result(selected_tuple, objective, 0, n, Status.OPTIMAL)
+    return Result(selected_tuple, objective, 0, n, Status.OPTIMAL if exact else Status.FEASIBLE)
 
 
 def _to_int_capacity(capacity: float, weights: Sequence[float]) -> tuple[int, float]:
@@ -152,12 +164,12 @@ def _greedy_fallback(
         indices.sort(key=lambda i: values[i] / weights[i] if weights[i] > 0 else float("inf"), reverse=True)
 
     selected = []
-    remaining = capacity
+    remaining = _exact(capacity)
 
     for i in indices:
-        if weights[i] <= remaining:
+        if _exact(weights[i]) <= remaining:
             selected.append(i)
-            remaining -= weights[i]
+            remaining -= _exact(weights[i])
 
     selected.sort()  # Return in original order
     selected_tuple = tuple(selected)
